@@ -110,13 +110,17 @@ def g_task(spec, o, tag):
             fb, fa = int(jo["fin_before"]), int(jo["fin_after"])
             dl = U64MAX if j["api"] == "join" else min(t_call + DUR[j["dur"]], U64MAX)
             amb = False
+            ff = int(o.get("fin", "0"))        # read after the last call, having waited for the body
             if fb:
                 fin = fb
-            elif fa == 0 or fa > t_ret:
-                fin = None
-            else:
-                fin = fa
+            elif fa and fa <= t_ret:
+                fin = fa                       # finished while the call was in progress
                 amb = abs(fa - dl) < MARGIN or fa > dl
+            elif ff:
+                fin = ff                       # finished after the call returned: the model decides
+                amb = abs(ff - dl) < MARGIN    # whether that was within the call's deadline
+            else:
+                fin = None
             r = jo["r"]
             lag = 0
             if is_outcome(r) and jo.get("first") in (None,) and fin is not None:
@@ -310,7 +314,17 @@ def matrix_cases():
     c = {"kind": "joins", "spawn_all": True,
          "tasks": [{"out": dict(o), "pre": {"how": "usleep", "ms": 300}, "joins": [{"api": "join"}]}
                    for o in VALUE_OUTS[:6] + PANIC_OUTS[3:7]]}
-    return [a, b, c]
+    # no time at all: the finished member is still reported, the unfinished one is not
+    d = {"kind": "any", "api": "any_timeout_join", "dur": "zero",
+         "tasks": [{"out": {"k": "i64", "v": "5"}, "pre": {"how": "usleep", "ms": 5000}},
+                   {"out": {"k": "i64", "v": "-7"}, "wait_fin": True}, {"out": {"k": "i64", "v": "8"}, "wait_fin": True}]}
+    # a wait that is longer than what the task still needs returns the outcome, promptly
+    e = {"kind": "joins", "spawn_all": False,
+         "tasks": [{"out": {"k": "string", "v": "late value"}, "pre": {"how": "usleep", "ms": 300},
+                    "joins": [{"api": "tj", "dur": "short"}, {"api": "tj", "dur": "long"}, {"api": "tj", "dur": "short"}]},
+                   {"out": {"k": "fmt", "m": 9}, "pre": {"how": "nanosleep", "ms": 300}, "joins": [{"api": "tj", "dur": "long"}]},
+                   {"out": {"k": "opt", "v": 7}, "pre": {"how": "usleep", "ms": 300}, "joins": [{"api": "tj", "dur": "zero"}, {"api": "tj", "dur": "mid"}]}]}
+    return [a, b, c, d, e]
 
 
 def any_case(rng, drop=False):
